@@ -36,41 +36,20 @@ _TRAIL_WS = None
 
 
 def prev_code_byte(b, o):
-    """The last byte before offset o that is neither layout nor inside a comment (None when that cannot be told). A `//` inside a
-    string literal is taken for a comment opener, which only makes the answer more lenient."""
+    """The last byte before offset o that is not layout, or None when that cannot be told without parsing (a comment marker on the
+    way: `//` anywhere on the line, or a block comment end). No verdict is better than a guess here."""
     import re
     global _TRAIL_WS
     if _TRAIL_WS is None:
         _TRAIL_WS = re.compile(rb"(?:[ \t\r\n\x0b\x0c]|\xc2\x85|\xe2\x80[\x8e\x8f\xa8\xa9])+\Z")
-    i = o
-    for _ in range(200):
-        m = _TRAIL_WS.search(b, max(0, i - 4096), i)
-        j = m.start() if m else i
-        if j <= 0:
-            return None
-        if b[j - 2:j] == b"*/":
-            k = b.rfind(b"/*", 0, j - 2)
-            if k < 0:
-                return None
-            i = k
-            continue
-        ls = b.rfind(b"\n", 0, j) + 1
-        c = b.find(b"//", ls, j)
-        cut = None
-        while c >= 0:
-            # a `//` after an even number of unescaped double quotes on its line is a comment opener; inside a literal it is text
-            seg = b[ls:c].replace(b"\\\\", b"").replace(b"\\\"", b"").replace(b"'\"'", b"")
-            if seg.count(b'"') % 2 == 0:
-                cut = c
-                break
-            c = b.find(b"//", c + 2, j)
-        if cut is not None:
-            i = cut
-            continue
-        if b[ls:j].replace(b"\\\\", b"").replace(b"\\\"", b"").replace(b"'\"'", b"").count(b'"') % 2 == 1 and b.find(b"//", ls, j) >= 0:
-            return None         # cannot tell (a literal spanning lines): no verdict
-        return b[j - 1:j]
-    return None
+    m = _TRAIL_WS.search(b, max(0, o - 4096), o)
+    j = m.start() if m else o
+    if j <= 0 or b[j - 2:j] == b"*/":
+        return None
+    ls = b.rfind(b"\n", 0, j) + 1
+    if b.find(b"//", ls, j) >= 0 or b.find(b"/*", ls, j) >= 0:
+        return None
+    return b[j - 1:j]
 
 
 def shape_of(before, after):
